@@ -11,7 +11,6 @@ package props
 
 import (
 	"encoding/json"
-	"reflect"
 	"testing"
 
 	"github.com/google/jsonschema-go/jsonschema"
@@ -321,12 +320,22 @@ func checkC15(c *c15Case, rec *ev.Recorder) *failure {
 			if fl := complete(after, c.Schema, ""); fl != nil {
 				return failf("%s\n schema: %s\n before: %s\n after:  %s", fl.Msg, doc, inst.JSON(), after.JSON())
 			}
+			// isolation between instances: whatever was inserted into this instance is the caller's
+			// now; scribbling over it must not change what a later application inserts elsewhere
+			poison(x)
+			var fresh any = inst.ToAny()
+			if err := rs.ApplyDefaults(&fresh); err != nil {
+				return failf("ApplyDefaults fails on a second, identical instance: %v", err)
+			}
+			if got := jv.FromAny(fresh); !jv.Equal(got, after) {
+				return failf("ApplyDefaults on a fresh copy of the same instance gives a different result after the first result was modified by its owner (inserted values are shared between instances)\n schema: %s\n instance: %s\n first:  %s\n second: %s", doc, inst.JSON(), after.JSON(), got.JSON())
+			}
 			// idempotence
 			var y any = after.ToAny()
 			if err := rs.ApplyDefaults(&y); err != nil {
 				return failf("second ApplyDefaults fails: %v\n schema: %s\n instance: %s", err, doc, after.JSON())
 			}
-			if !reflect.DeepEqual(x, y) {
+			if !jv.Equal(jv.FromAny(y), after) {
 				return failf("ApplyDefaults is not idempotent\n schema: %s\n once:  %s\n twice: %s", doc, after.JSON(), jv.FromAny(y).JSON())
 			}
 			if c.Typed {
@@ -342,7 +351,7 @@ func checkC15(c *c15Case, rec *ev.Recorder) *failure {
 						for k, v := range tm {
 							back[string(k)] = v
 						}
-						if !reflect.DeepEqual(back, x) {
+						if !jv.Equal(jv.FromAny(back), after) {
 							return failf("ApplyDefaults gives a different result on map[K]any (named string key) than on map[string]any\n schema: %s\n instance: %s\n map[string]any: %s\n map[K]any: %s", doc, inst.JSON(), after.JSON(), jv.FromAny(back).JSON())
 						}
 					}
@@ -351,6 +360,22 @@ func checkC15(c *c15Case, rec *ev.Recorder) *failure {
 		}
 		return nil
 	})
+}
+
+// poison writes a marker key into every map reachable from x (the harness acting as the owner
+// of an instance after ApplyDefaults returned).
+func poison(x any) {
+	switch t := x.(type) {
+	case map[string]any:
+		for _, v := range t {
+			poison(v)
+		}
+		t["__scribbled-by-owner"] = true
+	case []any:
+		for _, v := range t {
+			poison(v)
+		}
+	}
 }
 
 func TestC15(t *testing.T) {
